@@ -13,7 +13,7 @@
 (***************************************************************************)
 EXTENDS Table, HoldemJson
 CONSTANTS TraceFile, Props, MaxViol
-VARIABLES l, tb, viol, drift, cnt
+VARIABLES l, tb, mir, seen, viol, drift, cnt
 Trace == ndJsonDeserialize(TraceFile)
 SP == INSTANCE SeatProps
 
@@ -72,8 +72,34 @@ Bad(t0, ln) ==
      /\ ~SP!C08_positions(t0.sm, ToM(ln.T.sm), [op |-> "Next", seat |-> -1, p |-> 0, got |-> -1, res |-> ""])
   THEN {"C08.positions.viaTable"} ELSE {}
 
+(* ---- the mirror: competition.TableManager.UpdateTableState -> match.Table.ApplySeatChanges (SeatManager.tla: OpApplySeatChanges) ---- *)
+\* mir  : the seat manager of match.Table       seen : seat -> player id, the players of the table state the table manager saw last
+NoSeen == [s \in {} |-> 0]
+SeenOf(ps) == [s \in {ps[k].seat : k \in 1..Len(ps)} |-> ps[CHOOSE k \in 1..Len(ps) : ps[k].seat = s].id]
+IdsOf(f) == {f[s] : s \in DOMAIN f}
+SeatWith(ps, role) == LET K == {k \in 1..Len(ps) : role \in ToSet(ps[k].pos)} IN IF K = {} THEN -1 ELSE ps[CHOOSE k \in K : \A j \in K : j <= k].seat
+\* GetSeatChanges(old, new): nothing for a state without a game; otherwise the seats of the old players who are gone, and the positions
+ExpectedSC(prev, e) ==
+  IF ~e.hasG THEN [has |-> FALSE, dealer |-> -1, sb |-> -1, bb |-> -1, left |-> {}]
+  ELSE [has |-> TRUE, dealer |-> SeatWith(e.players, "dealer"), sb |-> SeatWith(e.players, "sb"), bb |-> SeatWith(e.players, "bb"),
+        left |-> {s \in DOMAIN prev : prev[s] \notin IdsOf(SeenOf(e.players))}]
+RecordedSC(e) == [has |-> e.sc.has, dealer |-> e.sc.dealer, sb |-> e.sc.sb, bb |-> e.sc.bb, left |-> ToSet(e.sc.left)]
+RECURSIVE FoldEms(_, _, _, _)
+FoldEms(m0, prev, ems, k) ==
+  IF k > Len(ems) THEN [m |-> m0, seen |-> prev, ok |-> TRUE]
+  ELSE LET e == ems[k]
+           x == ExpectedSC(prev, e)
+           m1 == IF x.has THEN SM!OpApplySeatChanges(m0, [dealer |-> x.dealer, sb |-> x.sb, bb |-> x.bb, left |-> x.left]).m ELSE m0
+           r == FoldEms(m1, SeenOf(e.players), ems, k + 1)
+       IN [r EXCEPT !.ok = r.ok /\ RecordedSC(e) = x /\ e.res = ""]
+MirrorStep(m0, prev, ln) ==
+  LET m1 == IF ln.op = "T.Join" /\ ln.err = "" THEN SM!OpJoinAt(m0, ln.seat, ln.id).m ELSE m0
+  IN FoldEms(m1, prev, ln.T.ems, 1)
+\* what the mirror is for: it shows the players of the real table on their seats
+MirrorShowsTable(T) == \A s \in 0..(T.sm.max - 1) : T.sm.seat[s + 1].player = T.mirror.seat[s + 1].player
+
 Bump(cc, S) == [k \in (DOMAIN cc) \cup S |-> (IF k \in DOMAIN cc THEN cc[k] ELSE 0) + (IF k \in S THEN 1 ELSE 0)]
-Init == l = 1 /\ tb = NewTable(ToOpt(Trace[1].opt)) /\ viol = {} /\ drift = {} /\ cnt = [k \in {} |-> 0]
+Init == l = 1 /\ tb = NewTable(ToOpt(Trace[1].opt)) /\ mir = SM!NewSM(Trace[1].opt.maxSeats) /\ seen = NoSeen /\ viol = {} /\ drift = {} /\ cnt = [k \in {} |-> 0]
 \* re-synchronise the model with the recorded table (after a drift): the hidden parts come from the model
 Resync(t1, T, opt) ==
   [t1 EXCEPT !.opt = ToOpt(opt), !.sm = ToM(T.sm), !.pl = ToPl(T.players), !.status = T.status, !.count = T.count, !.hasG = T.hasG,
@@ -82,12 +108,15 @@ Step ==
   /\ l < Len(Trace) /\ l' = l + 1
   /\ LET ln == Trace[l + 1] IN
      IF ln.kind = "reset"
-     THEN tb' = NewTable(ToOpt(ln.opt)) /\ viol' = viol /\ drift' = drift /\ cnt' = Bump(cnt, {"runs"})
+     THEN tb' = NewTable(ToOpt(ln.opt)) /\ mir' = SM!NewSM(ln.opt.maxSeats) /\ seen' = NoSeen /\ viol' = viol /\ drift' = drift /\ cnt' = Bump(cnt, {"runs"})
      ELSE LET r == ModelStep(tb, ln)
-              ok == ~ln.stuck /\ Shown(r.tb) = Obs(ln.T, ln.opt) /\ ModelErr(r.res) = ErrClass(ln.err)
+              mr == MirrorStep(mir, seen, ln)
+              mok == mr.ok /\ [mr.m EXCEPT !.crashed = FALSE] = ToM(ln.T.mirror)
+              ok == ~ln.stuck /\ Shown(r.tb) = Obs(ln.T, ln.opt) /\ ModelErr(r.res) = ErrClass(ln.err) /\ mok
           IN /\ viol' = viol \cup {<<l + 1, nm>> : nm \in {x \in Bad(tb, ln) : Cardinality({w \in viol : w[2] = x}) < MaxViol}}
              /\ drift' = IF ok \/ Cardinality(drift) >= MaxViol THEN drift ELSE drift \cup {l + 1}
              /\ tb' = IF ok THEN r.tb ELSE Resync(r.tb, ln.T, ln.opt)
+             /\ mir' = ToM(ln.T.mirror) /\ seen' = mr.seen
              /\ cnt' = Bump(cnt, {"table.calls", "table." \o ln.op \o (IF ln.err = "" THEN "" ELSE ".refused")}
                                  \cup (IF NewHand(tb, ln.T) THEN {"table.handsStarted", "C08.positions.viaTable"} ELSE {})
                                  \cup (IF NewHand(tb, ln.T) /\ tb.status = "idle" /\ tb.count > 0 THEN {"table.restartedFromIdle"} ELSE {})
@@ -95,8 +124,11 @@ Step ==
                                        THEN {"table.newBlindLevel"} ELSE {})
                                  \cup (IF ln.T.hasClosed THEN {"table.handsClosed"} ELSE {})
                                  \cup (IF ln.T.status = "closed" /\ tb.status # "closed" THEN {"table.closed"} ELSE {})
-                                 \cup (IF ln.stuck THEN {"table.stuck"} ELSE {}))
+                                 \cup (IF ln.stuck THEN {"table.stuck"} ELSE {})
+                                 \cup {"mirror.emissions" : k \in 1..Len(ln.T.ems)}
+                                 \cup (IF \E k \in 1..Len(ln.T.ems) : ln.T.ems[k].sc.left # <<>> THEN {"mirror.playerLeft"} ELSE {})
+                                 \cup (IF MirrorShowsTable(ln.T) THEN {"mirror.showsTable"} ELSE {"mirror.ghostPlayer"}))
   /\ (l + 1 = Len(Trace)) =>
         PrintT(<<"RESULT", ToJson([lines |-> Len(Trace), viol |-> viol', drift |-> drift', cnt |-> cnt'])>>)
-Spec == Init /\ [][Step]_<<l, tb, viol, drift, cnt>>
+Spec == Init /\ [][Step]_<<l, tb, mir, seen, viol, drift, cnt>>
 =============================================================================
